@@ -514,6 +514,7 @@ PROPS = {
     ),
     "C09": dict(
         module="Hb.Props.C09",
+        more_modules=["Hb.Props.C09Wrappers"],
         ties=[("scen", "iter", 300, 10000), ("scen", "mixed", 200, 6000), ("scen", "saturate", 40, 2000),
               ("scen", "table", 150, 5000), ("scen", "set", 100, 3000)],
         backends=["sse2", "portable"],
@@ -521,11 +522,20 @@ PROPS = {
         text="Lean theorems: in every table state satisfying the structural invariant (proved preserved elsewhere; "
              "validated on every state of every run) RawIter::next yields exactly the full buckets once, fold = "
              "repeated next from any prefix, size_hint exact at every step, fused, default empty — unbounded in table "
-             "size and occupancy. Tie: at the states of generated histories every public map iterator kind is walked "
-             "on the real code with next/clone/fold switched at every prefix length and compared to the model.",
-        note="Trusted: Lean kernel, axioms propext/Classical.choice/Quot.sound; harness + dump hook + protocol. The "
-             "public wrappers (Iter, Keys, Values, IterMut, ValuesMut, IntoIter, Drain) are observed through the "
-             "correspondence only; their Lean model is the shared RawIter. Set/table wrappers: via C06/C07 ties.",
+             "size and occupancy. The 16 PUBLIC iterator types (map Iter/IterMut/Keys/Values/ValuesMut/IntoIter/IntoKeys/"
+             "IntoValues/Drain, set Iter/IntoIter/Drain, table Iter/IterMut/IntoIter/Drain) are modelled impl by impl "
+             "(Hb/Model/IterWrap.lean: every next/size_hint/len/fold/Clone/Default forwards as in the source) and "
+             "Hb.Props.C09Wrappers proves for each of them: every stored element's projection exactly once then None "
+             "forever, size_hint/len exact after any number of steps, fold = the remaining nexts from any prefix, clones "
+             "continue independently, defaults are empty; owning ones: yielded ++ dropped-on-drop = stored at every cut "
+             "point, into_keys/into_values drop the other component exactly once. Tie: at the states of generated "
+             "histories every public iterator kind is walked on the real code with next/clone/fold switched at every prefix "
+             "length and compared to the model; owning iterators at every cut point, through next and through fold with a "
+             "consumer that stops by panicking.",
+        note="Trusted: Lean kernel, axioms propext/Classical.choice/Quot.sound; harness + dump hook + protocol. The wrapper "
+             "model is tied to the code through the shared engine: the harness maps every yielded reference back to its "
+             "bucket, so a wrapper that skipped, repeated or mis-projected an element shows as a difference. IntoValues runs "
+             "with a panicking KEY destructor are proved per step only. IterHash/IterHashMut (no size_hint) belong to C06.",
     ),
     "C20": dict(
         module="Hb.Props.C20",
